@@ -4,14 +4,16 @@ CFG = cfg('C03', refine=['Refine_encrypt'], extract='Ex_C03', driver='c03',
           rule='unit level (model function vs implementation function on the same octets): all 256 algorithm ids (membership, key and block size); '
                'encrypt_sk m with a stub key; decrypt_sk on chosen m (good / bad checksum / short / long / invalid algorithm); RSA left padding; '
                'the SEIPD gate on chosen plaintexts under every available cipher (valid, MDC damaged, repeat damaged, short, MDC over the wrong range); '
-               'SEIPD encrypt with pinned prefix vs model vs RFC 5.13 transcription; PKCS#5 every length 0..48 + damaged paddings vs the library PGPy calls; '
+               'SEIPD encrypt with pinned prefix vs model vs RFC 5.13 transcription; PKCS#5 padding of every length 0..48 vs the library PGPy\'s sender calls, unpadding = the last lines of '
+               'ECDHCipherText.decrypt run on chosen octets (key unwrap stubbed) on random / damaged paddings and on every block length 0..39 padded to 40 octets (RFC 6637 section 8) vs model vs an independent reader; '
                'RFC 6637 parameter block and KDF for every ECDH key vs ECKDF.derive_key; S2K oracle vs String2Key.derive_key; ephemeral point of every ECDH PKESK in the '
-               'fixed-width RFC 6637 encoding (8/60 draws for P-521, 2/12 for the other curves) + independent decryptor + own re-parse; session keys of the wrong length. '
+               'fixed-width RFC 6637 encoding (8/60 draws for P-521, 2/12 for the other curves) + independent decryptor + own re-parse; caller-supplied session keys of wrong and right length on the key AND the passphrase path '
+               '(refusal class compared with the model); copies of encrypted messages. '
                'message level: (a) independent decryptor: PGPy encrypts (9 ciphers x {rsa2048 subkey, rsa3072 primary, Curve25519 x2, P-256, P-384, P-521, secp256k1} x '
                'passphrases over 7 S2K hashes x 1..3 mixed recipients x bodies empty/text/unicode/binary/large/incompressible x 4 compressions x '
                'supplied/generated session key x signed x armored) -> the extracted model parses and decrypts through hashlib/cryptography -> plaintext packets '
                'must equal what PGPy encrypted, structure dump and re-emission must match, PGPy decrypts its own output as every recipient; '
-               '(b) independent encryptor: model output (encrypt_to; packet-by-packet with direct-mode SKESK, foreign outer cipher, shuffled ESK order) -> '
+               '(b) independent encryptor: model output (encrypt_to; packet-by-packet with direct-mode SKESK, foreign outer cipher, shuffled ESK order, ECDH m padded to 40 / 48 octets as an RFC 6637 sender hiding the key size may) -> '
                'PGPMessage.decrypt / PGPKey.decrypt must return the original. distinct = distinct canonical (suite, case) reaching a non-error path',
           trusted=['Spec/Rfc4880_enc.v, Spec/Rfc6637.v (RFC transcriptions)',
                    'primitive oracle: hashlib + cryptography/OpenSSL called directly by tools/harness/c03.py (the same libraries PGPy uses)',
@@ -22,12 +24,12 @@ CFG = cfg('C03', refine=['Refine_encrypt'], extract='Ex_C03', driver='c03',
                        'C03_message_roundtrip_pass; SHA-1 gate strength)',
                        'key ids identify keys among recipients and the holder\'s key packets (premise of C03_message_roundtrip_key)',
                        'inner packet parsing after the gate (literal / compressed / signature packets) belongs to C08/C20; Python runtime reached only through the correspondence run',
-                       'caller-supplied session keys of a length other than the cipher key size are outside the round-trip theorem (C03_pkesk_m_wrong_length_refuted)'])
+                       'caller-supplied session keys of a length other than the cipher key size are refused on both paths (C03_wrong_length_refused, C03_skesk_wrong_length_refused) and outside the round-trip theorem (C03_pkesk_m_wrong_length_refuted)'])
 
 TEXT = ('Rocq theorems (Props/C03.v, closed under the global context, primitives as universally quantified functions): SEIPD layout equals the RFC 4880 5.13 '
         'transcription and decrypt(encrypt) returns the data for all data, keys and prefixes of block size; PKESK m = RFC 5.1 and round-trips for every key of '
         'the cipher length (refuted otherwise); RSA ciphertext restoration incl. leading zero octets; ECDH composition (RFC 6637 parameter block and KDF equal the '
-        'transcription, PKCS#5 pad/unpad, AES key wrap); SKESK incl. direct mode and foreign algorithm octet; message-level round trip for every recipient of a mixed '
+        'transcription, PKCS#5 pad/unpad incl. any other PKCS#5 amount such as the RFC 6637 padding to 40 octets (C03_unpad_pad40, C03_pkesk_padded_roundtrip; refused by the pre-repair unpadder: C03_unpad_old_pad40_refuted), AES key wrap); SKESK incl. direct mode and foreign algorithm octet, wrong-length session keys refused on both paths; message-level round trip for every recipient of a mixed '
         'passphrase+key recipient list incl. subkey delegation; packet codecs (msg_parse after msg_emit is the identity on well-formed messages) and the octets-to-octets corollaries. PARTIAL: primitives assumed, wrong-key false accepts are a premise. Tie: source-text pins + extracted model '
         'run as independent decryptor/encryptor against PGPy with hashlib/cryptography as primitive oracle.',
         'DESIGN.md 5 C03',
